@@ -38,6 +38,9 @@ type Network struct {
 	Quiet      bool          // faults stop
 	// OnData, if set, observes every successful Write (after faults): from, to, bytes.
 	OnData func(from, to string, b []byte)
+	// OnWrite, if set, observes the bytes accepted by every Write of a
+	// connection end, in order (wire-level monitors reassemble frames from it).
+	OnWrite func(c *Conn, b []byte)
 	// Corrupt, if set, may modify the bytes of a Write in flight (byzantine link).
 	Corrupt func(c *Conn, b []byte) []byte
 	Dials   []DialRec
@@ -282,6 +285,16 @@ func (c *Conn) signal() {
 	}
 }
 
+// ID is the index of this connection end in the run (dialling end even, accepting end odd).
+func (c *Conn) ID() int { return c.id }
+
+// Dialer reports whether this end initiated the connection.
+func (c *Conn) Dialer() bool { return c.id%2 == 0 }
+
+// Local and Remote are the addresses of this end and of its peer.
+func (c *Conn) Local() string  { return c.local }
+func (c *Conn) Remote() string { return c.remote }
+
 // Node returns the owning node.
 func (c *Conn) Node() *simrt.Node { return c.node }
 
@@ -416,6 +429,9 @@ func (c *Conn) Write(p []byte) (int, error) {
 		c.peer.inBytes += len(b)
 		if c.n.OnData != nil {
 			c.n.OnData(c.node.Name, c.peer.node.Name, b)
+		}
+		if c.n.OnWrite != nil {
+			c.n.OnWrite(c, b)
 		}
 		c.peer.signal()
 		p = p[n:]
